@@ -189,6 +189,71 @@ def alpha_history(ck, seed):
                 ck.nontrivial("alpha_history|%s|%s|%s" % (kname, alpha, absstate.key_str(pk)))
 
 
+def sampler_paths(ck, dump, n, data):
+    """Whole paths through the real samplers (no resampling): for every final particle of the conditional and the
+    standard SMC sampler, on every RNG path, weight * prod q along its lineage = W1(x) * pdf(x) on TLC's tables."""
+    from phyclone.smc.samplers import ConditionalSMCSampler, SMCSampler
+    from phyclone.smc.utils import RootPermutationDistribution
+    import itertools
+
+    td = TableDist(dump["table"])
+    perm = RootPermutationDistribution()
+    complete = [absstate.canon(r["st"]) for r in dump["table"] if absstate.data_ids(absstate.canon(r["st"])) == set(range(n))]
+    for kname in ("boot", "semi", "full"):
+        for outl in (False, True):
+            for s0 in complete:
+                if s0[1] and not outl:
+                    continue
+                for sigma in itertools.permutations(range(n)):
+                    tree0 = absstate.build(s0, data)
+                    # sigma must be compatible with the start tree for the conditional sampler
+                    ok = all(sigma.index(e) < sigma.index(d) for c in s0[0] for d in (c - set().union(*[x for x in s0[0] if x < c]) if any(x < c for x in s0[0]) else c)
+                             for e in set().union(*([x for x in s0[0] if x < c] or [set()])))
+                    for mode in ("conditional", "standard"):
+                        if mode == "conditional" and not ok:
+                            continue
+                        if mode == "standard" and s0 != complete[0]:
+                            continue
+                        clear_caches()
+                        rng = EnumRNG()
+                        kern = kernel_cls(kname)(td, rng, outlier_proposal_prob=(0.1 if outl else 0.0), perm_dist=perm)
+                        dps = [data[i] for i in sigma]
+
+                        def go():
+                            if mode == "conditional":
+                                smp = ConditionalSMCSampler(tree0, dps, kern, num_particles=2, resample_threshold=0.0)
+                            else:
+                                smp = SMCSampler(dps, kern, num_particles=2, resample_threshold=0.0)
+                            return smp.sample()
+
+                        for swarm, p, _ in enumerate_paths(go, rng):
+                            # the samplers renormalise the swarm at every step, so a particle's weight is its product of
+                            # incremental weights up to a factor common to the swarm: the residuals below must coincide
+                            resid = []
+                            for part, lw in zip(swarm.particles, swarm.unnormalized_log_weights):
+                                lin = []
+                                q = part
+                                while q is not None:
+                                    lin.append(q)
+                                    q = q.parent_particle
+                                lin.reverse()
+                                sumq = 0.0
+                                for t_, pt in enumerate(lin):
+                                    par = lin[t_ - 1] if t_ > 0 else None
+                                    pd = kern.get_proposal_distribution(dps[t_], par, None if par is None else par.tree)
+                                    sumq += float(pd.log_p(pt._tree))
+                                k = absstate.quick_key(part.tree)
+                                want = math.log(td.w1[k]) - math.log(td.cnt[k])
+                                resid.append((float(lw) + sumq - want, k))
+                                ck.evaluations += 1
+                            spread = max(r for r, _ in resid) - min(r for r, _ in resid)
+                            if spread > 1e-9:
+                                ck.violation("C08|%s|path_weight|%s" % (kname, mode), "%s sampler, order %s: the particles' weights x lineage proposal probabilities are not proportional to W1 * pdf (log residuals %s for %s)" % (
+                                    mode, list(sigma), [round(r, 6) for r, _ in resid], [absstate.key_str(k) for _, k in resid]),
+                                    {"kernel": kname, "outl": outl, "mode": mode, "sigma": list(sigma), "start": absstate.to_json(s0)})
+                        ck.nontrivial("path|%s|%d|%s|%s|%s" % (kname, outl, mode, absstate.key_str(s0), sigma))
+
+
 def run(corrupt=None):
     ck = Check("C08")
     env.use_repo()
@@ -216,6 +281,11 @@ def run(corrupt=None):
     for (k, o, p), out in zip(configs, outs):
         dump = json.load(open(out))
         check_config(ck, dump, k, o, p, data, corrupt=corrupt)
+    for npath in (1, 2):
+        jp, outp = tlc_job("c08_paths%d" % npath, consts(npath, "full", True, True, seed))
+        rp = tlc.run_tlc(**jp)
+        tlc.require_ok(rp, "Proposal tables for sampler paths")
+        sampler_paths(ck, json.load(open(outp)), npath, absstate.make_data(npath, kind="flat", grid=3))
     clear_caches()
     alpha_history(ck, ck.seed)
     ck.rule = ("every (parent forest with < %d placed points incl. empty/outlier-only, next point) x 3 kernels x outlier proposal "
